@@ -69,3 +69,54 @@ Definition wf_table (t : table) : bool :=
   match t_extents t with Some e => (length e =? 2 * nd)%nat | None => true end &&
   forallb (fun kv => aux_key_ok (fst kv)) (t_aux t).
 
+(* ------------------------------------------------------------------------------------------------ *)
+(* wf_table' : the table-level conditions from which wf_doc (to_doc t) is DERIVED (C06_Wf.v), so that the byte-level
+   round trip C06_roundtrip needs no hypothesis about the produced document.  Each conjunct is a limit of the C types
+   or of the FITS card format:
+     ndim <= 999                     FITS: NAXIS <= 999 (and NAXISn / ORDERn / KNOTSn stay 8-character keywords)
+     naxes[i], nknots[i] < 2^63      fits_create_img takes `long` axis lengths (fitsio.h 524-529, 590, 610)
+     coefficients < 2^32             binary32 bit patterns (BITPIX -32: 4-byte words)
+     knots, extents < 2^64           binary64 bit patterns (BITPIX -64: 8-byte words)
+     order[i] < 2^31                 (already in wf_table: written with TINT)
+     periods, when present           ndim entries; each header token without blank or '/', not starting with a quote, and
+                                     at most 59 characters (what is left on a card after "HIERARCH PERIODnnn = "; the
+                                     text %.15G produces has at most 22)
+     auxiliary entries               key not reserved / EXTNAME / HDUNAME, characters 32..126 (wf_table: aux_key_ok);
+                                     key of at most 8 characters: no blank, encoded value (every quote counted twice, as
+                                     write_key counts it) at most 68 characters;
+                                     longer key (HIERARCH): no '=', no leading or trailing blank, and
+                                     key + max(8, encoded value) <= 66, i.e. "HIERARCH key = 'value'" fits in 80 columns.
+   write_key (aux.h 84-150, the fixed tree) accepts a subset of the keys (short: upper case and digits only; long: also no
+   lower case, <= 66 characters, not starting with "HIERARCH ") and, for values, printable characters with encoded length
+   <= 68 (short keys) or <= 67 - keylen (long keys).  The only accepted entries NOT covered here are long keys whose
+   card needs cfitsio's compressed form "HIERARCH key= 'value'" (encoded length = 67 - keylen, or keylen > 58 where the
+   blank-padded minimum of 8 characters no longer fits and cfitsio truncates): card_text has only the " = " form. *)
+Definition two31N : N := 2147483648.
+Definition two32N : N := 4294967296.
+Definition two63N : N := 9223372036854775808.
+Definition two64N : N := 18446744073709551616.
+
+Definition count_char (x : N) (l : str) : nat := length (filter (fun c => c =? x) l).
+(* write_key's encodedlen = length (escape_quotes v) *)
+Definition enc_len (v : str) : nat := (length v + count_char quote v)%nat.
+
+Definition aux_entry_ok (kv : str * str) : bool :=
+  let k := fst kv in
+  aux_key_ok k &&
+  if (length k <=? 8)%nat then no_char sp k && (enc_len (snd kv) <=? 68)%nat
+  else no_char eqc k && negb (hd sp k =? sp) && negb (last k sp =? sp) &&
+       (length k + Nat.max 8 (enc_len (snd kv)) <=? 66)%nat.
+
+Definition period_tok_ok (p : option str) : bool :=
+  match p with None => true | Some tk => tok_ok tk && (length tk <=? 59)%nat end.
+
+Definition wf_table' (t : table) : bool :=
+  let nd := length (t_order t) in
+  wf_table t &&
+  (nd <=? 999)%nat &&
+  forallb (fun a => a <? two63N) (t_naxes t) &&
+  forallb (fun w => w <? two32N) (t_coeffs t) &&
+  forallb (fun k => (N.of_nat (length k) <? two63N) && forallb (fun w => w <? two64N) k) (t_knots t) &&
+  match t_extents t with Some e => forallb (fun w => w <? two64N) e | None => true end &&
+  match t_periods t with Some ps => (length ps =? nd)%nat && forallb period_tok_ok ps | None => true end &&
+  forallb aux_entry_ok (t_aux t).
